@@ -1578,6 +1578,17 @@ where
         self.generation.fetch_add(1, Ordering::Relaxed);
     }
 
+    /// Continues the generation sequence of `previous` in `self`.
+    ///
+    /// Used when a triangulation replaces its `Tds` by a freshly built one (initial-simplex
+    /// bootstrap, heuristic rebuild): a fresh `Tds` counts from zero, so without this the
+    /// counter would restart and could return to a value that generation-keyed observers
+    /// (e.g. a `ConvexHull` created earlier) still regard as current.
+    pub(crate) fn adopt_generation_from(&mut self, previous: &Self) {
+        self.generation = Arc::clone(&previous.generation);
+        self.bump_generation();
+    }
+
     /// Gets the current generation value.
     ///
     /// This can be used by external code to detect when the triangulation has changed.
